@@ -5,7 +5,8 @@ import importlib, json, os, sys
 sys.path.insert(0, os.path.dirname(os.path.abspath(__file__)))
 import vcheck, tablecheck
 modname, famname = sys.argv[1].split(":")
-fam = getattr(importlib.import_module(modname), famname)
+_m = importlib.import_module(modname)
+fam = getattr(_m, famname) if hasattr(_m, famname) else _m.CHECKS[famname]
 work = vcheck.workdir("show")
 binp = vcheck.build_harness(fam["pkg"], work)
 env = dict(fam.get("env", {})); env["VERIF_REPLAY"] = os.path.abspath(sys.argv[2])
